@@ -49,7 +49,7 @@ CHECKS = {
         note=TRUST + "k is enumerated completely when the failure-free run has <= 400 I/O calls, otherwise first/last 100 plus a seeded sample; pairs of faults in the thorough tier.",
         tech="deterministic simulation: fault enumeration over every I/O call index of seeded programs"),
     "C12": dict(level="exploration", ref="DESIGN.md §4 C12, Appendix C",
-        text="Random call sequences (depth up to 200) over the full writer alphabet, legal or not, with small parameter domains; a writer state-machine model predicts MustOk / MustErr / Either per call; whenever finish() succeeds the archive must validate independently and contain exactly the entries and bytes the model accumulated. The exhaustive bounded-depth sweep the property also mentions is model checking and is not claimed.",
+        text="Random call sequences (depth up to 200) over the full writer alphabet, legal or not, with small parameter domains; a writer state-machine model predicts MustOk / MustErr / Either per call; whenever finish() succeeds the archive must validate independently and contain exactly the entries and bytes the model accumulated. The exhaustive bounded-depth sweep the property also mentions is model checking and is not claimed. The name domain includes names of 65533..65537 bytes ending in a letter or a separator.",
         note=TRUST + "After a failed state-changing call the model constrains only what the property states (R6).",
         tech="deterministic simulation: seeded call-sequence search against an executable writer state-machine model"),
     "C13": dict(level="exploration", ref="DESIGN.md §4 C13",
@@ -61,7 +61,7 @@ CHECKS = {
         note=TRUST + "Sources from the crate's writer and the independent builder incl. methods the crate cannot decode and data-descriptor entries.",
         tech="deterministic simulation: seeded two-disk programs with I/O schedules, extent equality via the independent parser"),
     "C15": dict(level="exploration", ref="DESIGN.md §4 C15",
-        text="Entries encrypted by the crate and by an independent PKWARE cipher (CRC and Info-ZIP time conventions), with the check byte chosen to cover all 256 outcomes, read with the right password, none, and wrong passwords searched to collide / not collide with the check byte, under short-read schedules; crate-written entries are decrypted by the independent cipher and scanned for plaintext.",
+        text="Entries encrypted by the crate and by an independent PKWARE cipher (CRC and Info-ZIP time conventions), with the check byte chosen to cover all 256 outcomes, read with the right password, none, and wrong passwords searched to collide / not collide with the check byte, under short-read schedules; crate-written entries are decrypted by the independent cipher and scanned for plaintext. Independently built entries also carry the compression-effort hint bits 1-2 that zip -9e / 7-Zip -mx set.",
         note=TRUST + "A wrong password that passes the 1-byte check is legal (R5).",
         tech="deterministic simulation: seeded password/content/check-byte search with an independent cipher as oracle, short-read schedules"),
     "C16": dict(level="fault_enumeration", ref="DESIGN.md §4 C16",
